@@ -37,6 +37,26 @@ type C03Scn struct {
 	Shape   string    `json:"shape"`           // duplex (both write at once, each closes after writing) | pingpong (B writes after it has read all of A)
 	CutAt   int       `json:"cut_at,omitempty"` // with a detour: cut main-path link (CutLink) once the acceptor has read this many bytes (0 = never)
 	CutLink int       `json:"cut_link,omitempty"`
+	// Twin: a second connection of the same kind (same service / same proxy) opened at the same moment as the main one, carrying its
+	// own two byte sequences; the accepting side tells the two apart by the first byte of the dialler's stream
+	Twin  bool  `json:"twin,omitempty"`
+	TwinA []int `json:"twa,omitempty"`
+	TwinB []int `json:"twb,omitempty"`
+}
+
+// prefixedConn gives back the bytes that were read ahead to identify a connection.
+type prefixedConn struct {
+	io.ReadWriteCloser
+	pre []byte
+}
+
+func (p *prefixedConn) Read(b []byte) (int, error) {
+	if len(p.pre) > 0 {
+		n := copy(b, p.pre)
+		p.pre = p.pre[n:]
+		return n, nil
+	}
+	return p.ReadWriteCloser.Read(b)
 }
 
 func c03Byte(dir int, i int64) byte { return byte(i*131 + i>>8*7 + i>>16 + int64(dir)*97) }
@@ -173,9 +193,71 @@ func execC03(b []byte) vx.Verdict {
 	labels := []string{"class:" + s.Class, "mode:" + s.Mode, "shape:" + s.Shape, fmt.Sprintf("hops=%d", s.Hops)}
 
 	var aConn, bConn io.ReadWriteCloser // the two application ends
-	acceptCh := make(chan io.ReadWriteCloser, 1)
+	acceptCh := make(chan io.ReadWriteCloser, 4)
+	twinCh := make(chan io.ReadWriteCloser, 4)
 	ctx, cancel := context.WithTimeout(context.Background(), 90*time.Second)
 	defer cancel()
+	if s.Twin && sumInts(s.TwinA) == 0 {
+		s.TwinA = []int{1}
+	}
+	accepts := 1
+	if s.Twin {
+		accepts = 2
+	}
+	dispatch := func(c io.ReadWriteCloser) {
+		if !s.Twin {
+			acceptCh <- c
+			return
+		}
+		go func() {
+			buf := make([]byte, 1)
+			n, _ := c.Read(buf)
+			pc := &prefixedConn{ReadWriteCloser: c, pre: buf[:n]}
+			if n == 1 && buf[0] == c03Byte(2, 0) {
+				twinCh <- pc
+			} else {
+				acceptCh <- pc
+			}
+		}()
+	}
+	type twinResult struct {
+		dialErr        error
+		wErrA, wErrB   error
+		rdCli, rdSrv   *c03Reader
+		cliUp, srvUp   chan struct{}
+	}
+	tw := &twinResult{cliUp: make(chan struct{}), srvUp: make(chan struct{})}
+	wantTA, wantTB := sumInts(s.TwinA), sumInts(s.TwinB)
+	twinStops := func() (int64, int64) {
+		if s.Mode == "proxy" {
+			return wantTB, wantTA
+		}
+		return -1, -1
+	}
+	runTwinClient := func(c io.ReadWriteCloser) {
+		stopCli, _ := twinStops()
+		tw.rdCli = readAll(c, 3, s.ReadA, stopCli, nil)
+		close(tw.cliUp)
+		_, tw.wErrA = writeAll(c, 2, s.TwinA)
+		if s.Mode == "direct" {
+			_ = c.Close()
+		}
+	}
+	if s.Twin {
+		go func() { // the accepting application's handling of the second connection
+			select {
+			case c := <-twinCh:
+				_, stopSrv := twinStops()
+				tw.rdSrv = readAll(c, 2, s.ReadB, stopSrv, nil)
+				close(tw.srvUp)
+				_, tw.wErrB = writeAll(c, 3, s.TwinB)
+				if s.Mode == "direct" {
+					_ = c.Close()
+				}
+			case <-ctx.Done():
+			}
+		}()
+	}
 	if s.Mode == "proxy" {
 		// TCP server <- outbound proxy on the last node <- mesh <- inbound proxy on the first node <- TCP client
 		srv, err := net.Listen("tcp", "127.0.0.1:0")
@@ -184,9 +266,12 @@ func execC03(b []byte) vx.Verdict {
 		}
 		defer srv.Close()
 		go func() {
-			c, err := srv.Accept()
-			if err == nil {
-				acceptCh <- c
+			for i := 0; i < accepts; i++ {
+				c, err := srv.Accept()
+				if err != nil {
+					return
+				}
+				dispatch(c)
 			}
 		}()
 		if err := services.TCPProxyServiceOutbound(last, "prox", nil, srv.Addr().String(), nil); err != nil {
@@ -195,6 +280,17 @@ func execC03(b []byte) vx.Verdict {
 		port := freePort()
 		if err := services.TCPProxyServiceInbound(first, "127.0.0.1", port, nil, names[s.Hops], "prox", nil); err != nil {
 			return vx.Inconclusive("inbound proxy: %v", err)
+		}
+		if s.Twin {
+			go func() {
+				c, err := net.DialTimeout("tcp", fmt.Sprintf("127.0.0.1:%d", port), 10*time.Second)
+				if err != nil {
+					tw.dialErr = err
+					close(tw.cliUp)
+					return
+				}
+				runTwinClient(c)
+			}()
 		}
 		c, err := net.DialTimeout("tcp", fmt.Sprintf("127.0.0.1:%d", port), 10*time.Second)
 		if err != nil {
@@ -207,11 +303,25 @@ func execC03(b []byte) vx.Verdict {
 			return vx.Inconclusive("listen: %v", err)
 		}
 		go func() {
-			c, err := li.Accept()
-			if err == nil {
-				acceptCh <- c
+			for i := 0; i < accepts; i++ {
+				c, err := li.Accept()
+				if err != nil {
+					return
+				}
+				dispatch(c)
 			}
 		}()
+		if s.Twin {
+			go func() {
+				c, err := first.DialContext(ctx, names[s.Hops], "strm", nil)
+				if err != nil {
+					tw.dialErr = err
+					close(tw.cliUp)
+					return
+				}
+				runTwinClient(c)
+			}()
+		}
 		var conn *netceptor.Conn
 		var derr error
 		if !vx.WithDeadline(95*time.Second, func() { conn, derr = first.DialContext(ctx, names[s.Hops], "strm", nil) }) {
@@ -291,7 +401,9 @@ func execC03(b []byte) vx.Verdict {
 			_ = bConn.Close()
 		}
 	}()
-	deadline := time.After(75 * time.Second)
+	deadline := make(chan struct{}) // closed when the time is up (every waiter sees it)
+	dlTimer := time.AfterFunc(75*time.Second, func() { close(deadline) })
+	defer dlTimer.Stop()
 	waitDone := func(r *c03Reader) bool {
 		select {
 		case <-r.done:
@@ -335,6 +447,69 @@ func execC03(b []byte) vx.Verdict {
 			}
 		}
 		return vx.Violation("complete", "C03/incomplete", "transfer incomplete although the links lose at most 3%% (%s, %d hops, mode %s, shape %s): %s", s.Class, s.Hops, s.Mode, s.Shape, detail)
+	}
+	if s.Twin {
+		labels = append(labels, "twin-connection")
+		twinUp := func(ch chan struct{}) bool {
+			select {
+			case <-ch:
+				return true
+			case <-deadline:
+				return false
+			}
+		}
+		cliUp := twinUp(tw.cliUp)
+		srvUp := cliUp && tw.dialErr == nil && twinUp(tw.srvUp)
+		okC := cliUp && tw.rdCli != nil && waitDone(tw.rdCli)
+		okS := srvUp && tw.rdSrv != nil && waitDone(tw.rdSrv)
+		var gotS, gotC int64
+		for _, r := range []*c03Reader{tw.rdSrv, tw.rdCli} {
+			if r == nil || !func() bool {
+				select {
+				case <-r.done:
+					return true
+				default:
+					return false
+				}
+			}() {
+				continue
+			}
+			if r.bad >= 0 {
+				return vx.CertainViolation("bytes-exact", "C03/bytes-altered", "on the second of two connections opened at the same time a wrong byte was read at offset %d (read %d; %s, %d hops, mode %s)", r.bad, r.total, s.Class, s.Hops, s.Mode)
+			}
+		}
+		if okS {
+			gotS = tw.rdSrv.total
+		}
+		if okC {
+			gotC = tw.rdCli.total
+		}
+		if gotS > wantTA || gotC > wantTB {
+			return vx.CertainViolation("bytes-exact", "C03/bytes-repeated", "second connection: more bytes read than written: A->B %d/%d, B->A %d/%d", gotS, wantTA, gotC, wantTB)
+		}
+		completeT := okC && okS && gotS == wantTA && gotC == wantTB && (s.Mode == "proxy" || (tw.rdSrv.eof && tw.rdCli.eof))
+		if !completeT {
+			detail := fmt.Sprintf("second connection: dial err %v, A->B %d/%d, B->A %d/%d, write errs %v %v, finished in time: %v %v", tw.dialErr, gotS, wantTA, gotC, wantTB, tw.wErrA, tw.wErrB, okS, okC)
+			if okS && tw.rdSrv != nil {
+				detail += fmt.Sprintf(" (acceptor: eof %v err %v)", tw.rdSrv.eof, tw.rdSrv.err)
+			}
+			if okC && tw.rdCli != nil {
+				detail += fmt.Sprintf(" (dialler: eof %v err %v)", tw.rdCli.eof, tw.rdCli.err)
+			}
+			if s.Mode == "direct" && ((okS && tw.rdSrv.eof && gotS < wantTA) || (okC && tw.rdCli.eof && gotC < wantTB)) {
+				return vx.CertainViolation("eof-after-all-data", "C03/early-eof", "a reader saw end-of-stream before all data: %s (%s, %d hops)", detail, s.Class, s.Hops)
+			}
+			if s.Class == "stress" {
+				return vx.Inconclusive("transfer did not complete under stress-class loss: %s", detail)
+			}
+			for _, needle := range []string{"no connection to next hop", "no route to node", "connInfo cancelled while forwarding"} {
+				if strings.Contains(detail, "INTERNAL_ERROR (local): "+needle) {
+					return vx.Violation("complete", "C03/local-send-error-aborts-stream", "a momentary send failure on the endpoint's own node (%q) aborted the stream although an alternative path exists / the link came back (%s, %d hops, detour %v, cut link %d at %d bytes): %s",
+						needle, s.Class, s.Hops, s.Detour, s.CutLink%maxInt(1, s.Hops), s.CutAt, detail)
+				}
+			}
+			return vx.Violation("complete", "C03/incomplete", "transfer incomplete although the links lose at most 3%% (%s, %d hops, mode %s, shape %s): %s", s.Class, s.Hops, s.Mode, s.Shape, detail)
+		}
 	}
 	var drops, dups, holds int64
 	for _, l := range mainLinks {
